@@ -67,6 +67,7 @@ class Result:
         self.trusted = []
         self.stats = {}
         self.explanation = ""
+        self.floors = []
 
     def rule(self, rid, text):
         self.rules.setdefault(rid, {"text": text, "instances": 0, "nontrivial": 0, "violations": 0})
@@ -86,10 +87,8 @@ class Result:
         self.instances.append({"rule": rid, "instance": desc, "verdict": "holds" if ok else "VIOLATED"})
 
     def floor(self, rid, minimum):
-        n = self.rules.get(rid, {}).get("instances", 0)
-        if n < minimum:
-            raise AnalysisBroken("rule %s matched %d instances, expected at least %d "
-                                 "(anchor moved or front end lost it)" % (rid, n, minimum))
+        # evaluated in finish(): a genuine violation found elsewhere is reported in preference to the floor failure
+        self.floors.append((rid, minimum))
 
     def finish(self):
         os.makedirs(WIT_DIR, exist_ok=True)
@@ -161,4 +160,14 @@ class Result:
         print("%s: obligations=%d discharged=%d known=%d violations=%d wall=%.1fs" % (
             self.prop, self.obligations, self.discharged, len(known_hit), len(violations),
             time.time() - self.t0))
+        broken = []
+        for rid, minimum in self.floors:
+            n = self.rules.get(rid, {}).get("instances", 0)
+            if n < minimum:
+                broken.append("rule %s matched %d instances, expected at least %d (anchor moved or front end lost it)"
+                              % (rid, n, minimum))
+        if broken and not violations:
+            raise AnalysisBroken("; ".join(broken))
+        for b_ in broken:
+            print("NOTE: %s" % b_)
         return 1 if violations else 0
